@@ -29,7 +29,7 @@ class ScheduleError(RuntimeError):
     pass
 
 
-_TOKEN = re.compile(r"[0-9a-f]{32}")
+_TOKEN = re.compile(r"[0-9a-f]{32}|[0-9a-f]{8}-[0-9a-f]{4}-[0-9a-f]{4}-[0-9a-f]{4}-[0-9a-f]{12}")
 
 
 def keyname(k):
@@ -81,16 +81,33 @@ def canonical_priority(dsk, deps, order):
         for d in ds:
             if d in dependents:
                 dependents[d].add(k)
-    base = {k: keyname(k) for k in dsk}
-    sig = {k: (base[k], tuple(sorted(base[d] for d in deps[k])), tuple(sorted(base[d] for d in dependents[k]))) for k in dsk}
+    # colour refinement: start from the token-stripped name and repeatedly mix in the colours of the dependencies and
+    # dependents, so that e.g. the uuid-named delayed task of block (0,1) is told apart from that of block (0,0) by the
+    # indexed array key it reads.  Whatever stays tied after refinement is ordered by position in the graph mapping
+    # (construction order), never by the random part of the name.
+    import hashlib
+    colour = {k: keyname(k) for k in dsk}
+    pos = {k: i for i, k in enumerate(dsk)}
+    for _ in range(8):
+        new = {}
+        for k in dsk:
+            h = hashlib.blake2b(digest_size=12)
+            h.update(colour[k].encode())
+            h.update(b"|d|" + "|".join(sorted(colour[d] for d in deps[k])).encode())
+            h.update(b"|u|" + "|".join(sorted(colour[d] for d in dependents[k])).encode())
+            new[k] = keyname(k) + "~" + h.hexdigest()
+        if len(set(new.values())) == len(set(colour.values())):
+            colour = new
+            break
+        colour = new
     groups = {}
     for k in dsk:
-        groups.setdefault(sig[k], []).append(k)
+        groups.setdefault(colour[k], []).append(k)
     canon = {}
-    for sg, ks in groups.items():
-        ks.sort(key=str)
+    for c, ks in groups.items():
+        ks.sort(key=lambda k: pos[k])
         for i, k in enumerate(ks):
-            canon[k] = "%s|%s|%s|%d" % (sg[0], ",".join(sg[1]), ",".join(sg[2]), i)
+            canon[k] = "%s|%d" % (c, i)
     fake = {canon[k]: None for k in dsk}
     fdeps = {canon[k]: {canon[d] for d in deps[k]} for k in dsk}
     fprio = order(fake, dependencies=fdeps)
